@@ -164,7 +164,7 @@ def run_variant(ck, vname, fns, wd, suffix, pathname, input_mode, lang="c"):
             ok, tags, msgs = probes.rustc_diagnose(mp, exe, r["text"], bp, extra=["-C", f"link-arg={obj}", "-C", f"link-arg={dobj}"])
             if ok:
                 break
-            bt = getattr(probes.rustc_diagnose, "last_by_tag", {})
+            bt = probes.last_by_tag()
             bad = [f for k, f in enumerate(live) if f"K{k}" in tags]
             if not bad:
                 return out + [(None, "caller-does-not-build", "; ".join(sorted(set(msgs))[:3])[:300])]
